@@ -7,6 +7,8 @@ simulated bus, 1..4 maps each, configured directly, from the dictionary or throu
 takes the configuration from the device and reads every frame through its own mapping.  The sides may take
 turns (a map that has received is written and transmitted by its own node).
 """
+import os
+import sys
 import threading
 import time
 
@@ -31,14 +33,19 @@ RULE = ("case = 1..4 PDO maps (layouts as in C05: 1..8 objects, any integer type
         "the consumer or from a third node that took "
         "the configuration from the device after the consumer's save()), wait_for_reception with a second thread "
         "delivering every 2 ms (or nothing delivered), wait_for_reception of 1..3 reader threads that are all parked when exactly "
-        "ONE frame arrives (on a map that never received before, or that did), callbacks that block for 5..50 ms, "
+        "ONE frame arrives (on a map that never received before, or that did), SCHEDULES of the delivering thread "
+        "(op keys sched / sched_at: while it hands a frame to the library it gives up the CPU for 2..25 ms before every "
+        "source line of canopen/pdo/* it executes, or before the k-th one, k = 0..23, so that a woken reader runs as "
+        "early as the library lets it; sys.settrace in that thread only, the library is not changed), the woken "
+        "reader reading map.timestamp and map.data at once, callbacks that block for 5..50 ms, "
         "re-mapping of a PDO (clear() + the same objects in another order "
         "on every node) between variable lookups through every route, and the two sides taking turns: the consumer "
         "writes variables of a map that has received and transmits it, the third node reads. Oracle: per-map reception "
         "model (data, timestamp, callback "
         "counts) + the C05 bit-field model for values, read on the consumer AND on the third node through their own "
         "mappings; transmit = exactly one data frame (COB-ID with the matching frame format, current data); RTR frame "
-        "iff enabled and RTR allowed; a parked reader returns the frame's timestamp well before its own time-out. "
+        "iff enabled and RTR allowed; a parked reader returns the frame's timestamp well before its own time-out "
+        "and, once back, reads a timestamp and data of the frame(s) delivered during its wait - under every schedule. "
         "Non-trivial = >= 2 maps and a reception with a non-byte-aligned layout "
         "or a colliding / reconfigured id; distinct = canonical JSON.")
 ASSUMPTIONS = [
@@ -49,6 +56,10 @@ ASSUMPTIONS = [
     "(len(Condition._waiters), read-only); if that cannot be observed the op falls back to re-delivery every 2 ms. "
     "'Woken' = returned within 2 s of the injection with a 4 s time-out, and the verdict must reproduce on a fresh rig",
     "'a waiting reader' is read as 'every reader that waits': with several reader threads each one must be woken",
+    "schedules: a thread switch may happen before any source line of the delivering thread; the harness provokes it "
+    "with a per-thread trace function that sleeps (lines of canopen/pdo/* only). What the woken reader returns and "
+    "reads must be the delivered frame's timestamp / data whatever the schedule; the sleep length is not an oracle "
+    "input (a reader that does not get to run during the sleep only makes the case weaker, never alarming)",
     "a sender does not hear its own frames (simulated bus = python-can default)",
     "excluded (counted): a write on a consumer map that received its current buffer together with another map of the "
     "same node (colliding COB-IDs) - the unchanged library lets both maps share one bytearray; and a frame on the "
@@ -61,6 +72,43 @@ NODE = 6
 
 SINGLE_T = 4.0          # time-out of reader threads that are parked when exactly one frame arrives
 SUBS = [1, 2, 127, 128, 254]
+
+
+_PDO_DIR = os.sep + os.path.join("canopen", "pdo") + os.sep
+
+
+class yielding:
+    """Schedule of the delivering thread: while a frame is handed to the library by the thread that enters this
+    context, that thread gives up the CPU for `ms` milliseconds before every source line of the library's PDO code
+    (canopen/pdo/*) that it executes - or only before the `at`-th one.  Every other thread (a reader that has been
+    woken, for instance) gets to run at each of these points, as it may under any scheduler.  Nothing is changed in
+    the library; sys.settrace is per thread and restored on exit."""
+
+    def __init__(self, ms, at=None):
+        self.ms, self.at, self.n = ms, at, 0
+
+    def _local(self, frame, event, arg):
+        if event == "line":
+            i, self.n = self.n, self.n + 1
+            if self.at is None or self.at == i:
+                time.sleep(self.ms / 1000.0)
+        return self._local
+
+    def _global(self, frame, event, arg):
+        if event == "call" and _PDO_DIR in frame.f_code.co_filename:
+            return self._local
+        return None
+
+    def __enter__(self):
+        self.old = sys.gettrace()
+        if self.ms:
+            sys.settrace(self._global)
+        return self
+
+    def __exit__(self, *exc):
+        if self.ms:
+            sys.settrace(self.old)
+        return False
 
 
 def obj_index(m, j):
@@ -477,10 +525,18 @@ def _run_case(case) -> Outcome:
                 cond = getattr(cmaps[m], "receive_condition", None)
                 res = [None] * nw
 
+                sched = yielding(op.get("sched", 0), op.get("sched_at"))
+                if sched.ms:
+                    feats.add("wait-yielding-delivery")
+                seen = [None] * nw
+
                 def reader(i):
                     try:
                         r = cmaps[m].wait_for_reception(tmo)
-                        res[i] = (True, r, time.monotonic())
+                        t_ret = time.monotonic()
+                        # what the woken reader finds on the map at once
+                        seen[i] = (cmaps[m].timestamp, bytes(cmaps[m].data))
+                        res[i] = (True, r, t_ret)
                     except Exception as ex:          # judged below
                         res[i] = (False, ex, time.monotonic())
 
@@ -498,14 +554,16 @@ def _run_case(case) -> Outcome:
                 stamps = []
                 fr = Frame(c_cob[m], data, ts=hub.now())
                 stamps.append(fr.ts)
-                hub.inject(fr)
+                with sched:
+                    hub.inject(fr)
                 t_inj = time.monotonic()
                 while ids_ok and not sure and any(th.is_alive() for th in ths):
                     # the readers could not be seen parked: re-deliver until they are through (as in the other mode)
                     time.sleep(0.002)
                     fr = Frame(c_cob[m], data, ts=hub.now())
                     stamps.append(fr.ts)
-                    hub.inject(fr)
+                    with sched:
+                        hub.inject(fr)
                 for th in ths:
                     th.join(tmo + 10)
                 if any(th.is_alive() for th in ths):
@@ -518,9 +576,22 @@ def _run_case(case) -> Outcome:
                     elif not ids_ok:
                         if r is not None:
                             bad("wait/woken-by-foreign-frame", f"{tag}: {who} returned {r!r}")
+                    elif (r is None or r not in stamps) and seen[i] and seen[i][1] == data and c_data[m] != data and \
+                            bytes(nbytes[m]) != data:
+                        # the reader did come back holding this frame's data (which the map did not hold before),
+                        # but not with this frame's timestamp
+                        bad("wait/woken-without-frame-timestamp",
+                            f"{tag}: {who} was parked when the frame {data.hex()} @ {stamps[0]} arrived and finds that "
+                            f"data on the map, but wait_for_reception returned {r!r} and map.timestamp read "
+                            f"{seen[i][0]!r} (the map's previous timestamp: {c_ts[m]!r})")
                     elif r is None or r not in stamps:
                         bad("wait/not-woken", f"{tag}: {who} was parked when the frame @ {stamps[0]} arrived, "
                                               f"returned {r!r}")
+                    elif seen[i][0] not in stamps or seen[i][1] != data:
+                        # "read identically ... together with the frame's timestamp": the only frames that reached
+                        # this map since the reader went to wait are `stamps`, all carrying `data`
+                        bad("wait/woken-reader-reads-stale", f"{tag}: {who} returned {r!r} and then read map.timestamp "
+                            f"{seen[i][0]!r}, data {seen[i][1].hex()}; the frame is {data.hex()} @ {stamps}")
                     elif sure and t_ret - t_inj > SINGLE_T / 2:
                         bad("wait/not-woken-in-time", f"{tag}: {who} was parked when the only frame arrived but returned "
                             f"{t_ret - t_inj:.1f} s later (its own time-out is {SINGLE_T} s): not woken by the frame")
@@ -539,12 +610,17 @@ def _run_case(case) -> Outcome:
                     done = threading.Event()
                     stamps = []
 
+                    sched = yielding(op.get("sched", 0), op.get("sched_at"))
+                    if sched.ms:
+                        feats.add("wait-yielding-delivery")
+
                     def feeder():
                         started.wait(5)
                         while not done.is_set():
                             fr = Frame(c_cob[m], data, ts=hub.now())
                             stamps.append(fr.ts)
-                            hub.inject(fr)
+                            with sched:
+                                hub.inject(fr)
                             time.sleep(0.002)
 
                     th = threading.Thread(target=feeder, daemon=True)
@@ -561,7 +637,11 @@ def _run_case(case) -> Outcome:
                     done.set()
                     th.join(5)
                     if ids_ok:
-                        if r is None or r not in stamps:
+                        if r is not None and r not in stamps and r == c_ts[m]:
+                            bad("wait/woken-without-frame-timestamp",
+                                f"{tag}: frames {data.hex()} @ {stamps[:3]}.. were delivered during the wait; "
+                                f"wait_for_reception returned {r!r}, the timestamp of the frame BEFORE the wait")
+                        elif r is None or r not in stamps:
                             bad("wait/not-woken", f"{tag}: frames were delivered during the wait, returned {r!r}")
                         elif took > 3.0:
                             bad("wait/not-woken", f"{tag}: frames arrived every 2 ms but the waiter only "
@@ -674,6 +754,11 @@ def case_strategy(draw):
             else:
                 ops.append({"op": "wait", "m": m, "deliver": draw(st.booleans()),
                             "data": draw(st.binary(min_size=8, max_size=8))})
+            if ops[-1].get("deliver", True) and draw(st.integers(0, 3)) == 0:
+                # schedule: the delivering thread gives up the CPU inside the library's reception code
+                ops[-1]["sched"] = draw(st.sampled_from([2, 5]))
+                if draw(st.booleans()):
+                    ops[-1]["sched_at"] = draw(st.integers(0, 23))
         elif kind == "remap":
             ops.append({"op": "remap", "m": m, "rot": draw(st.integers(0, 7))})
         elif kind == "rtr":
@@ -752,6 +837,26 @@ def enum_cases(thorough=False):
                                           {"op": "wait", "m": 1, "mode": "single", "waiters": 1, "data": d1},
                                           {"op": "reconfigure", "m": 1, "cob": 0x386, "resubscribe": False},
                                           {"op": "wait", "m": 1, "mode": "single", "waiters": nw, "data": d2}]}
+    # schedules: "reception delivered ... from a second thread while another thread waits": the delivering thread
+    # gives up the CPU before every line of the library's PDO reception code (or before one of them) - a woken
+    # reader gets to run as early as the library lets it, and must come back with THIS frame's timestamp and data.
+    # First frame of the map and later frames; parked readers and a re-delivering feeder; with a callback
+    points = [(5, None), (12, None)] + ([(25, k) for k in range(24)] if thorough else [])
+    for ms, at in points:
+        for first in (True, False):
+            for nw in ((1, 2, 3) if thorough else (1, 2)):
+                if at is not None and nw == 3:
+                    continue
+                y = {"sched": ms} if at is None else {"sched": ms, "sched_at": at}
+                pre = [] if first else [{"op": "write", "m": 0, "j": 2, "v": -2}, {"op": "transmit", "m": 0}]
+                cb = [{"op": "callback", "m": 0}] if nw == 2 else []
+                yield {"maps": two, "config": ("direct", "save", "from_od")[nw - 1],
+                       "ops": pre + cb + [dict(y, op="wait", m=0, mode="single", waiters=nw, data=d1),
+                                          dict(y, op="wait", m=0, mode="single", waiters=nw, data=d2),
+                                          dict(y, op="wait", m=1, deliver=True, data=d1),
+                                          dict(y, op="wait", m=1, deliver=True, data=d2),
+                                          {"op": "write", "m": 0, "j": 2, "v": 77}, {"op": "transmit", "m": 0},
+                                          dict(y, op="wait", m=0, deliver=True, data=d2)]}
     # the configuration is shared through save() alone (no subscribe() by hand), also after a change of the COB-ID
     for how in ("save", "subscribe"):
         for config in CONFIGS:
